@@ -18,7 +18,7 @@ import (
 // FuzzKeepText makes FuzzNode keep full texts (used when explaining a mismatch).
 var FuzzKeepText bool
 
-func FuzzNode(seed int64, steps int) *Cluster {
+func FuzzNode(seed int64, steps int, idMul uint64) *Cluster {
 	rng := rand.New(rand.NewSource(seed))
 	o := Opts{Seed: seed, ElectionTick: []int{10, 5, 3}[rng.Intn(3)], MaxInflightMsgs: []int{1, 2, 4, 16}[rng.Intn(4)],
 		MaxSizePerMsg:             []uint64{0, 1, 40, 200, 1 << 20, ^uint64(0)}[rng.Intn(6)],
@@ -38,7 +38,10 @@ func FuzzNode(seed int64, steps int) *Cluster {
 	c.Mon.off = true
 
 	// random configuration and storage
-	ids := []uint64{1, 2, 3, 4, 5}
+	if idMul == 0 {
+		idMul = 1
+	}
+	ids := []uint64{1 * idMul, 2 * idMul, 3 * idMul, 4 * idMul, 5 * idMul}
 	me := ids[rng.Intn(3)]
 	cs := &pb.ConfState{}
 	for _, id := range ids {
@@ -191,7 +194,7 @@ func FuzzNode(seed int64, steps int) *Cluster {
 				from = ids[rng.Intn(5)]
 			}
 			if rng.Intn(20) == 0 {
-				from = 6 // unknown peer
+				from = 6 * idMul // unknown peer
 			}
 			m := &pb.Message{Type: ty.Enum(), From: new(from), To: new(me), Term: new(pickTerm())}
 			switch ty {
